@@ -8,7 +8,7 @@ CONSTANTS
   SetMaxTri = 2
   NamesB = {"a", "b"}
   MaxDepth = 100
-  EmitMode = "acts"
+  EmitMode = "none"
 VIEW View
 INVARIANT MeshValid
 INVARIANT EdgeTableCorrect
